@@ -195,6 +195,7 @@ SENTINEL_EXCEPTIONS = {
 # INV-RENDER (C06.9): render-path stores to state render() reads that need no _invalidate(), one line of reason each.
 _TERMINAL_LIVE = "Terminal.render() returns its one live, mutable TermCanvas object (self.term): every cache entry is that same object, there is no older rendering to go stale; output arriving from the pty invalidates explicitly"
 INV_RENDER_EXCEPTIONS = {
+    "widget.listbox.ListBox.calculate_visible:_zero_row_items": "scratch result of this very call: calculate_visible() rewrites it before render() reads it in the same rendering, it is never read across calls and decides nothing but the dependency list of the canvas being built (fix 00389c3)",
     "vterm.Terminal.terminate:terminated": _TERMINAL_LIVE,
     "vterm.Terminal.change_focus:old_tios": "saved tty settings of the hosting terminal, not part of the canvas",
     "vterm.Terminal.flush_responses:response_buffer": "output queue towards the pty, not part of the canvas",
